@@ -124,7 +124,7 @@ fn seeds() -> Vec<Vec<u8>> {
         "\"\\u00e9\"", "\"\\ud83d\\ude00\"", "[]", "[1]", "[1,2]", "[1, 2, 3]", "[[]]", "[[1],[2]]", "[\"a\",\"b\"]", "[true,false,null]",
         "{}", "{\"a\":1}", "{\"a\":1,\"b\":2}", "{\"a\":{\"b\":[1,2]}}", "{\"a\":\"x\",\"b\":[],\"c\":{}}", " [ 1 , 2 ] ", "{ \"a\" : 1 , \"b\" : 2 }",
         "[1.5,2e3,-0.1]", "{\"k\":\"\\\"q\\\"\"}", "[\"\\\\\",1]", "{\"a\":1}\n", "[\n1,\n2\n]", "{\"a\":[1,{\"b\":null}],\"c\":\"d\"}",
-        "{\"a\":[1,2],\"b\":true}", "[[1,2],3]", "{\"a\":{\"b\":1,\"x\":2},\"c\":3}",
+        "{\"a\":[1,2],\"b\":true}", "[[1,2],3]", "[\"a\\nb\",1]", "{\"a\\nb\":1,\"k\":2}", "{\"a\":{\"b\":1,\"x\":2},\"c\":3}",
     ];
     base.iter().map(|s| s.as_bytes().to_vec()).collect()
 }
@@ -192,7 +192,7 @@ fn main() {
         if want("C08") && lazy.is_ok() { if let Ok(rn) = sonic_rs::from_str::<sonic_rs::RawNumber>(txt) { if number(rn.as_str().as_bytes(), 0) != Some(rn.as_str().len()) { report("C08", format!("RawNumber from {} holds {:?}: not a JSON number", show(d), rn.as_str())); } } }
         // C20: errors locate themselves
         if want("C20") { if let Err((off, l, c)) = &lazy { if *off > d.len() || (*l != 0 && (*l, *c) != line_col(d, *off)) { report("C20", format!("error for {} reports offset {} line {} column {}, expected line/column {:?}", show(d), off, l, c, line_col(d, *off))); } } }
-        if want("C20") { if let Some((off, l, c)) = verr { if off > d.len() { report("C20", format!("from_str::<Value>({}) error reports offset {} beyond the input length {}", show(d), off, d.len())); } let _ = (l, c); } }
+        if want("C20") { if let Some((off, l, c)) = verr { if off > d.len() { report("C20", format!("from_str::<Value>({}) error reports offset {} beyond the input length {}", show(d), off, d.len())); } if l != 0 && (l, c) != line_col(d, off) { report("C20", format!("from_str::<Value>({}) error reports offset {} line {} column {}, expected line/column {:?}", show(d), off, l, c, line_col(d, off))); } } }
         if want("C02") && val_ok != ok && !ok { report("C02", format!("from_str::<Value>({}) accepted malformed text", show(d))); }
         // C03: the embedded (copy-out) parse of a value equals the whole-input parse
         if want("C03") && ok {
